@@ -9,6 +9,7 @@ LEVEL = 'model_checking'
 def plan(tier):
     units, info = wrgraph.wr_plan(tier)
     units = units + wrgraph.scale_units(tier)[0] + wrgraph.thread_units() + wrgraph.live_units() + \
+        wrgraph.sink_units() + \
         wrgraph.small_text_units(tier)
     return {
         'units': units,
@@ -27,7 +28,10 @@ def plan(tier):
                 'and records it gets alone; plus two writers (then two '
                 'readers) alive in ONE thread, their calls merged in every '
                 'order (readers in the quick tier: <= 4 switches), 5 renderings of the same '
-                'calls, all 15 pairs. Non-trivial: >= 2 '
+                'calls, all 15 pairs; plus 6 documents written into 7 kinds '
+                'of sink (write() returning None or the count, raw and '
+                'buffered files, BufferedWriter(16), spooled temporary file, '
+                'gzip). Non-trivial: >= 2 '
                 'containers and a non-default argument or non-UTF-8 effective '
                 'encoding.' % (
                     info['graph_states'], info['graph_closed'],
@@ -62,6 +66,9 @@ def run_unit(unit, tier):
     if unit[0] == 'live':
         from mc.explore import Acc
         return wrgraph.run_live_unit(unit, tier, Acc)
+    if unit[0] == 'sinks':
+        from mc.explore import Acc
+        return wrgraph.run_sink_unit(unit, tier, Acc)
     if unit[0] == 'scale':
         from mc.explore import Acc
         return wrgraph.wr_run_scale_unit(unit, tier, oracle, Acc)
@@ -72,6 +79,9 @@ def replay(payload):
     if payload.get('kind') == 'threads':
         return [{'key': k, 'msg': m}
                 for k, m in wrgraph.replay_threads(payload)]
+    if payload.get('kind') == 'sink':
+        return [{'key': k, 'msg': m}
+                for k, m in wrgraph.replay_sink(payload)]
     if payload.get('kind') == 'live':
         return [{'key': k, 'msg': m}
                 for k, m in wrgraph.replay_live(payload)]
